@@ -187,3 +187,15 @@ Proof.
   - destruct (rstep (g_sh s) (g_r s)) as [r|] eqn:E; [|discriminate].
     destruct (apply_ghost (s_gh r) (g_pub s) (g_got s)). inversion H; subst. cbn [g_sh]. apply rstep_static with (t := g_r s); assumption.
 Qed.
+
+Lemma mo_marker_orders : forall h l mo,
+  (forall t r, wstep h t = Some r -> (s_lab r = LAWr l mo -> mo = RBC_MO_RELEASE) /\ s_lab r <> LARd l mo) /\
+  (forall t r, rstep h t = Some r -> (s_lab r = LAWr l mo -> mo = RBC_MO_RELEASE) /\ (s_lab r = LARd l mo -> mo = RBC_MO_ACQUIRE)).
+Proof. intros h l mo. split; intros t r H; [apply w_atomic_orders with (h := h) (t := t) | apply r_atomic_orders with (h := h) (t := t)]; assumption. Qed.
+
+Lemma mo_marker_values : forall h i mo,
+  (forall t r, wstep h t = Some r -> s_lab r = LAWr (DW i) mo ->
+     (hmem (s_sh r) = stw (hmem h) i RB_CHUNK_MAGIC /\ exists d, s_gh r = GPub d) \/
+     (hmem (s_sh r) = stw (hmem h) i RB_CHUNK_MAGIC_ALLOC /\ s_gh r = GNone)) /\
+  (forall t r, rstep h t = Some r -> s_lab r = LAWr (DW i) mo -> hmem (s_sh r) = stw (hmem h) i RB_CHUNK_MAGIC_DEAD).
+Proof. intros h i mo. split; intros t r H Hl; [eapply w_marker_values | eapply r_marker_values]; eauto. Qed.
